@@ -108,6 +108,10 @@ type Plan struct {
 	Lookups      []LookupSpec       `json:"lookups,omitempty"`
 	Faults       []*simnet.Targeted `json:"faults,omitempty"`
 	Triggers     []Trigger          `json:"triggers,omitempty"`
+	// Bursts: up to this many times, the conclusion of a membership change (FinishJoin / FinishLeave that
+	// releases the membership lock - completed or abandoned) is followed at once by a short series of
+	// operations on the shared keys entering at both nodes of the change (C04)
+	Bursts int `json:"bursts,omitempty"`
 	Buggify      bool               `json:"buggify"`
 	MaxQuiet     int                `json:"max_quiet_periods"`
 	FinalLookups int                `json:"final_lookups,omitempty"`
@@ -384,6 +388,9 @@ func GenPlan(prop string, seed uint64, tier string) *Plan {
 				Spare:    1 + r.Uint64()%1000,
 			})
 		}
+	}
+	if prop == "C04" && churn && r.Chance(0.6) {
+		p.Bursts = 2 + r.Intn(6)
 	}
 	switch prop {
 	case "C07":
